@@ -68,7 +68,6 @@ func c17Run(c c17Case) (sig, msg string, nontrivial bool) {
 	var txs []transaction.Transaction
 	model := map[ref.Hash]transaction.Transaction{}
 	removedAfterSave := false
-	expired := map[ref.Hash]bool{}
 	for step, op := range c.Ops {
 		switch op.K {
 		case "save":
@@ -84,9 +83,8 @@ func c17Run(c c17Case) (sig, msg string, nontrivial bool) {
 				continue
 			}
 			tx := txs[op.Tx%len(txs)]
-			if expired[tx.Hash] {
-				continue // saving an expired transaction again is outside what the sequence explores (not triaged)
-			}
+			// (an expired transaction may be saved again: it is awaiting again and listed once, although the address
+			// lists may still name its hash from before - found listed twice, fixed in /repo)
 			_, present := model[tx.Hash]
 			err := h.SaveAwaitedTransaction(&tx)
 			if present && err == nil {
@@ -140,7 +138,6 @@ func c17Run(c c17Case) (sig, msg string, nontrivial bool) {
 				continue
 			}
 			delete(model, t.Hash)
-			expired[t.Hash] = true
 			nontrivial = true
 		case "balsave":
 			// the same cache object also holds balances, keyed by the address string the notary passes in
